@@ -20,6 +20,14 @@ What is enumerated
                  `Template("{% tag ... %}")` (real lexer, parser, BaseNode.parse, NodeList.render);
               C  probes carrying the *signatures and tag names of the built-in nodes* of the working tree
                  (component, slot, fill, provide, html_attrs, component_*_dependencies), both paths.
+  names       D  parts A-C call every parameter p<i>.  Part D repeats seam A (both paths) and seam B on the small
+                 signatures with *unusual but legal* parameter names: every shape of length <= n (quick 2, thorough 3)
+                 with every injective assignment of names from UNUSUAL_NAMES - Python soft keywords (`type`, `match`,
+                 `_`; thorough also `case`) and a non-ASCII identifier (`größe`) - crossed with every call of length <= 3
+                 over  V | <name>=V for EVERY unusual name (a name the signature does not declare is an unknown key) |
+                 data-x=V | class=V | ...[V1, V2] | ...{"<name>": V} for every unusual name.
+                 Such names are ordinary identifiers: Python writes them as plain `f(type=1)` keywords, so they must
+                 bind declared parameters and must not be handled like `class` / `data-x`.
 
 Oracle (Python itself)
   The call is written as Python source `f(None, None, 10, *[21, 22], p0=30, **{"data-x": 40}, **{"p1": 57})`
@@ -40,6 +48,9 @@ Excluded / agnostic corners (nothing below decides a verdict)
     repeated key are not judged for that tag.
   * Aggregate keys (`attrs:key=`) and value syntax (filters, nested literals, translations) belong to C02;
     flags and end tags are not arguments.  Spreads of non-iterables (ValueError by design) are not generated.
+  * Part D names are restricted to identifiers for which "the equivalent Python call" is unambiguous: NFKC-stable
+    (Python normalises identifiers in source, `f(ﬁ=1)` binds `fi`, `f(**{"ﬁ": 1})` does not), not `__debug__`
+    (`f(__debug__=1)` is a SyntaxError although `f(**{"__debug__": 1})` is accepted) and not `self` / `context`.
 """
 from __future__ import annotations
 
@@ -47,6 +58,7 @@ import inspect
 import itertools
 import keyword
 import sys
+import unicodedata
 
 from mc import par
 
@@ -387,6 +399,15 @@ def _rename(sig, toks):
     return tuple((k, d, m[n]) for k, d, n in sig), tuple(out)
 
 
+def _plain_names(sig, toks):
+    """Declared names, then plain-identifier keys of the call, in first-use order."""
+    out = [p[2] for p in sig]
+    for t in toks:
+        if t[0] in "KD" and is_plain_name(t[1]) and t[1] not in out:
+            out.append(t[1])
+    return out
+
+
 def shrink(sig, toks, path, clause, voff, tag, judge_dups, ctx, rename=True, seam="node"):
     """Greedy delta: drop arguments / parameters / defaults, simplify tokens, rename - while the same clause still fails."""
     sig, toks = tuple(sig), tuple(toks)
@@ -450,6 +471,18 @@ def shrink(sig, toks, path, clause, voff, tag, judge_dups, ctx, rename=True, sea
             rsig, rtoks = _rename(sig, toks)
             if (rsig, rtoks) != (sig, toks) and fails(rsig, rtoks):
                 sig, toks = rsig, rtoks
+            elif rename == "each":
+                # part D: the failure needs some of the unusual names - keep those, canonicalise the others one by one
+                for old in _plain_names(sig, toks):
+                    used = set(_plain_names(sig, toks))
+                    decl = [p[2] for p in sig]
+                    new = f"p{decl.index(old)}" if old in decl else next((u for u in UNKNOWN_NAMES if u not in used), None)
+                    if new is None or new == old or new in used:
+                        continue
+                    csig = tuple((k, d, new if n == old else n) for k, d, n in sig)
+                    ctoks = tuple((t[0], new) if (t[0] in "KD" and t[1] == old) else t for t in toks)
+                    if fails(csig, ctoks):
+                        sig, toks = csig, ctoks
         except StopIteration:
             pass
     return sig, toks
@@ -496,7 +529,8 @@ def report_failure(agg, state, part, sig, call, path, clause, text, voff, tag, j
         agg.failures_dropped += 1  # still executed, judged and counted - only not shrunk to an identity of its own
         return
     state["shrinks"] += 1
-    ssig, stoks = shrink(sig, call.toks, path, clause, voff, tag, judge_dups, ctx, rename=(part != "C"), seam=seam)
+    rename = False if part == "C" else ("each" if part == "D" else True)
+    ssig, stoks = shrink(sig, call.toks, path, clause, voff, tag, judge_dups, ctx, rename=rename, seam=seam)
     scall = Call(stoks, voff)
     if path in ("fast", "fallback"):
         other = "fallback" if path == "fast" else "fast"
@@ -748,6 +782,109 @@ def _part_c_task(arg):
     return tag, qual, sig_text(sig), agg
 
 
+# ----------------------------------------------------------------------------- part D (unusual but legal names)
+# Soft keywords (keyword.softkwlist of 3.10-3.12: `_`, `case`, `match`, `type`) and a non-ASCII identifier.  All of them
+# are plain identifiers on every supported Python; the list is fixed so that the space does not depend on the interpreter.
+UNUSUAL_NAMES = {
+    "quick": ("type", "match", "_", "größe"),
+    "thorough": ("type", "match", "_", "größe", "case"),
+}
+
+
+def check_unusual_names(names):
+    for n in names:
+        ok = (
+            n.isidentifier() and not keyword.iskeyword(n) and unicodedata.normalize("NFKC", n) == n
+            and n not in ("self", "context", "__debug__") and not n.startswith("_c11")
+        )
+        if not ok:
+            raise par.HarnessError(f"part D name {n!r} is not an unambiguous plain identifier on this interpreter")
+    if len(set(names)) != len(names):
+        raise par.HarnessError("part D names repeat")
+
+
+def enum_named_signatures(maxn, names):
+    """Every shape of length <= maxn with every injective assignment of `names` to its parameters."""
+    return [
+        tuple((k, d, nm) for (k, d), nm in zip(shape, pick))
+        for shape in enum_shapes(maxn)
+        for pick in itertools.permutations(names, len(shape))
+    ]
+
+
+def alphabet_d(names):
+    return [("P",)] + [("K", n) for n in names] + [("K", "data-x"), ("K", "class"), ("L",)] + [("D", n) for n in names]
+
+
+def _count_d(names, max_n, max_len):
+    per_n = {}
+    for shape in enum_shapes(max_n):
+        per_n[len(shape)] = per_n.get(len(shape), 0) + 1
+    nsig = 0
+    for n, c in per_n.items():
+        a = 1
+        for j in range(n):
+            a *= len(names) - j
+        nsig += c * a
+    ncalls = sum(len(alphabet_d(names)) ** L for L in range(0, max_len + 1))
+    return nsig, ncalls
+
+
+def _part_d_worker(w, W, payload):
+    from django.template import Context
+
+    names, max_n, max_len, voff, seam = payload["names"], payload["max_n"], payload["max_len"], payload["voff"], payload["seam"]
+    sigs = enum_named_signatures(max_n, names)
+    alpha = alphabet_d(names)
+    nameset = set(names)
+    # per signature: the names a keyword argument can bind to a *declared* parameter
+    kw_bindable = {sig: {n for k, _, n in sig if k in "KW"} for sig in sigs}
+    ctx = Context() if seam == "node" else None
+    tag = "c11" if seam == "node" else "t"
+    agg = par.Agg()
+    state = _new_state()
+    i = -1
+    for L in range(0, max_len + 1):
+        for toks in itertools.product(alpha, repeat=L):
+            i += 1
+            if i % W != w:
+                continue
+            call = Call(toks, voff)
+            agg.extra["calls"] += 1
+            keys = {k for k in call.flat if k in nameset}
+            for sig in sigs:
+                exp, res, pp = check_pair(sig, call, ctx, seam=seam)
+                agg.states += 1
+                agg.transitions += len(res)
+                agg.validated += len(res)
+                if exp[0] == "ok":
+                    if call.pos_after_kw:
+                        cls_ = "agnostic_spread_after_keyword"
+                    elif keys & kw_bindable[sig]:
+                        cls_ = "python_binds_declared_unusual_name_by_keyword"
+                        agg.nontrivial += 1
+                    elif keys:
+                        cls_ = "python_puts_unusual_name_into_kwargs"
+                        agg.nontrivial += 1
+                    else:
+                        cls_ = "python_accepts_without_unusual_keyword"
+                elif call.py is None:
+                    cls_ = "python_syntax_error"
+                else:
+                    cls_ = "python_type_error"
+                agg.expected[cls_] += 1
+                for path, kind, log, problem in res:
+                    agg.observe((path,) + outcome_key(kind, log))
+                    agg.extra[f"{path}:{kind}"] += 1
+                    if problem:
+                        report_failure(agg, state, "D", sig, call, path, problem[0], problem[1], voff, tag, True, ctx, seam=seam)
+                if pp and not (res[0][3] or res[1][3]):
+                    report_failure(agg, state, "D", sig, call, "both", pp[0], pp[1], voff, tag, True, ctx, seam=seam)
+                if cls_ == "python_binds_declared_unusual_name_by_keyword" and len(agg.samples) < 2 and L >= 2 and len(sig) >= 2:
+                    agg.sample({"signature": sig_text(sig), "tag": "{% " + tag + " " + call.text + " %}", "python": call.pysrc, "binding": repr(exp[1])})
+    return agg
+
+
 # ----------------------------------------------------------------------------- run / replay
 def _count_pairs(maxlen_by_n):
     max_n = max(maxlen_by_n)
@@ -772,9 +909,11 @@ def run(ctx):
     if thorough:
         maxlen_by_n = {0: 5, 1: 5, 2: 5, 3: 5, 4: 4, 5: 4}
         b_n, b_len, c_len = 4, 3, 4
+        d_node, d_tmpl = (3, 3), (2, 2)  # (max params, max call length)
     else:
         maxlen_by_n = {0: 4, 1: 4, 2: 4, 3: 4, 4: 3, 5: 3}
         b_n, b_len, c_len = 3, 2, 3
+        d_node, d_tmpl = (2, 3), (1, 2)
     want_pairs, per_n = _count_pairs(maxlen_by_n)
     print(f"C11 part A: {sum(per_n.values())} signatures {per_n}, call length bound per size {maxlen_by_n}: {want_pairs} pairs x 2 paths", flush=True)
 
@@ -831,6 +970,41 @@ def run(ctx):
         )
         fnd.merge_reports(aggc.failures)
         dropped += aggc.failures_dropped
+
+    # ---- part D: soft keywords / non-ASCII identifiers as parameter names and keyword keys
+    d_names = UNUSUAL_NAMES[ctx.tier if ctx.tier in UNUSUAL_NAMES else "quick"]
+    check_unusual_names(d_names)
+    d_alpha = "P <name>= (every unusual name) data-x= class= ...[..] ...{<name>} (every unusual name)"
+    for seam, (d_n, d_len) in (("node", d_node), ("template", d_tmpl)):
+        nsig, ncalls = _count_d(d_names, d_n, d_len)
+        print(f"C11 part D ({seam}): names {list(d_names)}, {nsig} signatures (<= {d_n} params) x {ncalls} calls (<= {d_len} args) = {nsig * ncalls} pairs", flush=True)
+        sigs_d = enum_named_signatures(d_n, d_names)
+        if len(sigs_d) != nsig or len(set(sigs_d)) != nsig:
+            raise par.HarnessError(f"part D enumerates {len(sigs_d)} signatures, counted {nsig}")
+        payload = {"names": d_names, "max_n": d_n, "max_len": d_len, "voff": voff, "seam": seam}
+        try:
+            for sg in sigs_d:  # built / registered before the fork so that workers share them
+                if seam == "node":
+                    node_classes(sg)
+                else:
+                    template_tag_for(sg)
+            aggd = par.run_sharded(_part_d_worker, payload)
+        finally:
+            if seam == "template":
+                _part_b_teardown()
+        if aggd.states != nsig * ncalls:
+            raise par.HarnessError(f"part D ({seam}) executed {aggd.states} pairs, the product has {nsig * ncalls}")
+        if not aggd.expected["python_binds_declared_unusual_name_by_keyword"]:
+            raise par.HarnessError(f"part D ({seam}) never bound a declared unusual name by keyword")
+        ev.add_part(
+            f"D_unusual_names_{seam}", states=aggd.states, transitions=aggd.transitions, validated=aggd.validated,
+            nontrivial=aggd.nontrivial, observed_distinct=len(aggd.observed), expected=aggd.expected,
+            bound={"names": list(d_names), "max_params": d_n, "max_call_len": d_len, "signatures": nsig,
+                   "call_shapes": aggd.extra["calls"], "alphabet": d_alpha},
+            samples=aggd.samples[:2], extra={"outcomes_by_path": {k: v for k, v in sorted(aggd.extra.items()) if ":" in k}},
+        )
+        fnd.merge_reports(aggd.failures)
+        dropped += aggd.failures_dropped
     if dropped:
         # every pair was executed and judged; beyond MAX_SHRINKS_PER_WORKER failing pairs per worker are only counted
         ev.extra["failing_pairs_counted_but_not_shrunk"] = dropped
@@ -840,6 +1014,7 @@ def run(ctx):
         "order of entries inside **kwargs and exception messages are not compared",
         "the fallback path is reached with a callable object that has no __code__ (the only thing validate_params() dispatches on)",
         "part C uses probes with the signatures and tag names of the built-in nodes; html_attrs calls with a repeated key are not judged (documented merge)",
+        "part D names are NFKC-stable identifiers other than __debug__/self/context, for which f(name=V) and f(**{'name': V}) mean the same",
     ]
 
 
